@@ -58,6 +58,20 @@ Section Spec.
     forall i a b c, (a < 3)%nat -> (b < 3)%nat -> (c < 3)%nat -> G a b c i = G a c b i.
   Definition harmonic : Prop :=
     forall i c, (c < 3)%nat -> G 0 0 c i + G 1 1 c i + G 2 2 c i = 0.
+  (* the sigma equation holds at the returned solution (oracle specification of the Newton solve):
+     VR = model of _residual evaluated at xs = sigma, xi = iota; sigma[0] already equals sigma0 *)
+  Definition sigma_solved (VR : string -> I -> R) : Prop :=
+    VR "xs" = S "s.sigma" /\ VR "xi" = S "s.iota" /\ (forall i, VR "r" i = 0)
+    /\ o_pin O (S "s.sigma") (S "s.sigma0") = S "s.sigma"
+    /\ (forall i, S "s.iotaN" i = S "s.iota" i + S "s.helicity" i * S "s.nfp" i).
+  (* (c), tangent slice (a = 2), for ANY current: the part of G 2 b c antisymmetric in (b,c) is the arclength derivative of
+     the on-axis current density 2 sG spsi I2 t (dt/dl = kappa n); it vanishes when I2 = 0 *)
+  Definition tangent_slice_curl : Prop := forall i,
+      G 2 0 1 i = G 2 1 0 i /\ G 2 0 2 i = G 2 2 0 i
+      /\ G 2 1 2 i - G 2 2 1 i = 2 * S "s.sG" i * S "s.spsi" i * S "s.I2" i * S "s.curvature" i.
+  Definition vacuum_tangent_slice_symmetric : Prop :=
+    (forall i, S "s.I2" i = 0) -> forall i b c, (b < 3)%nat -> (c < 3)%nat -> G 2 b c i = G 2 c b i.
+
   (* (d) the two derivations agree *)
   Definition two_ways : Prop :=
     forall i a b c, (a < 3)%nat -> (b < 3)%nat -> (c < 3)%nat -> G a b c i = Galt a b c i.
